@@ -12,10 +12,10 @@
        Conclusion: what reached the sink is a prefix of ONE honest plaintext, and Ok means all of it.
    (B) FRAMING corollaries with NO cryptographic premise (AEAD correctness only): every proper prefix of an
        honest stream / file is rejected; an honest stream / file followed by >= 1 byte is rejected.
-   NOT stated here (not proved in this development): that overwriting the advisory 8-byte per-record counter
-   field leaves outcome and output unchanged (DESIGN's C03_counter_advisory), and C03_len_bound as a separate
-   theorem (the bound check itself is part of the model and of C09_bounded_reads).  The rejection of
-   single-bit changes is an instance of (A) under the no-forgery premise, not an unconditional theorem.
+   Also stated here: overwriting the advisory 8-byte per-record counter field leaves outcome and output
+   unchanged (C03_counter_advisory), and a length field above the chunk size is rejected before it sizes a
+   read (C03_len_bound).  The rejection of single-bit changes outside the counter field is an instance of (A)
+   under the no-forgery premise, not an unconditional theorem.
    Key mode: authenticity of the whole file incl. the handshake — fields and chunks of different honest files
    cannot be recombined — is C03_key_authentic (premises: no forgery among the opens of the run, SHA-256 injective on
    the finite list of hash inputs that occur, honest ephemeral/file keys distinct); the counter field is advisory
